@@ -102,11 +102,15 @@ class StructureDetector:
         # Stack of loops with follow nodes
         self.loop_stack = [(top_loop, None)]
         self.shapes = []
-        shape = self.make_shape(self.cfg.entry_node)
+        shape = self.make_shape(self.cfg.entry_node, self.cfg.exit_node)
         return shape
 
-    def make_shape(self, entry):
-        """Given a set of blocks and an entry block, determine the shape"""
+    def make_shape(self, entry, fall_through):
+        """Given a set of blocks and an entry block, determine the shape
+
+        fall_through is the node at which execution continues when the
+        created shape completes without a break or continue.
+        """
 
         # Decide between loop, if-else or straight line code:
         if entry is self.cfg.exit_node:
@@ -121,7 +125,7 @@ class StructureDetector:
             self.marked.add(follow_up)
 
             self.logger.debug("--> Loop: %s break to %s", entry, follow_up)
-            s1 = self.make_shape(entry)
+            s1 = self.make_shape(entry, follow_up or fall_through)
             self.logger.debug("--> end loop")
 
             # Cleanup stacks:
@@ -130,14 +134,14 @@ class StructureDetector:
             # Create shape:
             shape = LoopShape(s1)
             if follow_up:
-                s3 = self.make_shape(follow_up)
+                s3 = self.make_shape(follow_up, fall_through)
                 shape = SequenceShape([shape, s3])
         elif len(entry.successors) == 1:
             # Simple straight ahead:
             self.logger.debug("--> code: %s", entry)
             (follow_up,) = entry.successors
             shape = BasicShape(entry)
-            s2 = self.test(follow_up)
+            s2 = self.test(follow_up, fall_through)
             if s2:
                 shape = SequenceShape([shape, s2])
         elif len(entry.successors) == 2:
@@ -151,20 +155,20 @@ class StructureDetector:
             yes, no = entry.yes, entry.no  # TODO: major hack for yes and no
             self.logger.debug("--> code %s", entry)
             self.logger.debug("--> if (based on) %s", entry)
-            yes_shape = self.test(yes)
+            yes_shape = self.test(yes, follow_up or fall_through)
             self.logger.debug("--> else")
-            no_shape = self.test(no)
+            no_shape = self.test(no, follow_up or fall_through)
             self.logger.debug("--> end if %s", entry)
             shape = IfShape(entry, yes_shape, no_shape)
             if follow_up:  # follow_up in same_loop:
-                s2 = self.make_shape(follow_up)
+                s2 = self.make_shape(follow_up, fall_through)
                 shape = SequenceShape([shape, s2])
         else:  # pragma: no cover
             raise NotImplementedError(str(entry))
 
         return shape
 
-    def test(self, node):
+    def test(self, node, fall_through):
         """Check if a node is marked, or else shape it!"""
         if node in self.marked:
             # Break or continue!
@@ -172,10 +176,17 @@ class StructureDetector:
                 return ContinueShape(0)
             elif node is self.loop_stack[-1][1]:
                 return BreakShape(0)
-            else:
+            elif node is fall_through or node is self.cfg.exit_node:
+                # Execution arrives there by itself.
                 return None
+            else:
+                # A jump to a node which is placed elsewhere. This can
+                # not be expressed with if, loop, break and continue.
+                raise ValueError(
+                    f"Cannot structure control flow: jump to {node}"
+                )
         else:
-            return self.make_shape(node)
+            return self.make_shape(node, fall_through)
 
     def is_inactive_header(self, block):
         if block in self.loop_headers:
